@@ -606,6 +606,7 @@ v("C16", "ext-ctor-nil-layout", "break", ["C16.iface-fields"], [("plugin_logger.
 v("C10", "ext-r8-lazy-before-gate", "break", ["C10"], [("log.go", "\tif l, ok := tag.serving(level); ok {\n\t\tpublish(ctx, l, level, tag.tag, 2, fn())\n\t}", "\tfields := fn()\n\tif l, ok := tag.serving(level); ok {\n\t\tpublish(ctx, l, level, tag.tag, 2, fields)\n\t}")], base="keep-ext/C10-r8k.patch")
 v("C04", "ext-r8-queue-discard-uncounted", "break", ["C04"], [("plugin_logger.go", "\tcase BufferFullPolicyDiscard:\n\t\tdrop(v)\n", "\tcase BufferFullPolicyDiscard:\n")], base="keep-ext/C06-r8k.patch")
 v("C06", "ext-r8-queue-offer-blocks", "break", ["C06"], [("plugin_logger.go", "\tselect {\n\tcase q.ch <- v:\n\t\treturn true\n\tdefault:\n\t\treturn false\n\t}", "\tq.ch <- v\n\treturn true")], base="keep-ext/C06-r8k.patch")
+v("C14", "ext-r8-owns-any-length", "break", ["C14"], [("plugin_appender_retention.go", "\tif !ok || len(stamp) != len(stampLayout) {", "\tif !ok {")], base="keep-ext/C14-r8k.patch")
 v("C02", "ext-r8-prefixes-consult-bare-wildcard", "break", ["C02"], [("log_tag.go", "\t\t\tif i <= 0 {\n\t\t\t\treturn\n\t\t\t}\n\t\t\ttag = strings.TrimSuffix(tag[:i], \"_\")", "\t\t\tif i < 0 {\n\t\t\t\treturn\n\t\t\t}\n\t\t\ttag = strings.TrimSuffix(tag[:i], \"_\")")], base="keep-ext/C02-r8k.patch")
 v("C20", "ext-named-ctor-wrong-flag", "break", ["C20.async-opt-in"], [("plugin_logger.go", "\tif f.AsyncWrite {\n\t\treturn initRollingFileLogger(f, newRollingAsyncLogger)", "\tif f.Separate {\n\t\treturn initRollingFileLogger(f, newRollingAsyncLogger)")], base="keep-ext/C20-r4c.patch")
 
@@ -642,7 +643,8 @@ def main():
                             based[rel] = cur
             shutil.rmtree(tmp)
             for rel, cur in based.items():
-                files[rel + "#orig"] = open(os.path.join(REPO, rel)).read()
+                orig_p = os.path.join(REPO, rel)
+                files[rel + "#orig"] = open(orig_p).read() if os.path.exists(orig_p) else ""
                 files[rel] = cur
         for fn, old, new in edits:
             src = files.get(fn)
@@ -666,7 +668,7 @@ def main():
         for fn in [f for f in files if not f.endswith("#orig")]:
             a = files[fn + "#orig"].splitlines(keepends=True)
             b = files[fn].splitlines(keepends=True)
-            body.extend(difflib.unified_diff(a, b, "a/" + fn, "b/" + fn))
+            body.extend(difflib.unified_diff(a, b, "a/" + fn if a else "/dev/null", "b/" + fn))
         open(os.path.join(OUT, kind, f"{prop}-{name}.patch"), "w").write("\n".join(out) + "\n" + "".join(body))
     print(f"{len(V) - bad} variants written, {bad} skipped")
 
